@@ -765,6 +765,18 @@ def modules_family():
                "def sun_angle():\n    sun_lamp.On = sun_sensor.Vertical > 1\n    return sun_sensor.Horizontal\n"
                "while True:\n    lamp.On = sensor.Vertical > 0\n    d4.Setting = sun_angle() + sensor.Horizontal\n    d5.Setting = sun_angle()\n    yield_()\n")
     out.append(("md_device_names", {"": main7, "sun": lib_s}, merged7))
+    # two register-held globals of ONE library whose uses lie in disjoint line ranges
+    lib_g = H + "xs = 0\ndef fx(xa):\n    global xs\n    xs = xs + xa\n    return xs\nys = 10\ndef fy(xa):\n    global ys\n    ys = ys + xa * 2\n    return ys\n"
+    main8 = H + "from library import mg\nwhile True:\n    d1.Setting = mg.fx(d0.Setting)\n    d2.Setting = mg.fy(1)\n    d3.Setting = mg.fx(1) + mg.fy(d0.Setting)\n    yield_()\n"
+    merged8 = (H + "mg_xs = 0\ndef mg_fx(xa):\n    global mg_xs\n    mg_xs = mg_xs + xa\n    return mg_xs\nmg_ys = 10\ndef mg_fy(xa):\n    global mg_ys\n    mg_ys = mg_ys + xa * 2\n    return mg_ys\n"
+               "while True:\n    d1.Setting = mg_fx(d0.Setting)\n    d2.Setting = mg_fy(1)\n    d3.Setting = mg_fx(1) + mg_fy(d0.Setting)\n    yield_()\n")
+    out.append(("md_two_globals_one_lib", {"": main8, "mg": lib_g}, merged8))
+    # a library function that itself calls another library function (return address saved), all calling conventions
+    lib_n = H + "def inner(xa):\n    d3.Setting = xa\n    return xa + 1\ndef outer(xa):\n    ta = inner(xa)\n    return inner(ta) * 2\n"
+    main9 = H + "from library import mn\nwhile True:\n    d1.Setting = mn.outer(d0.Setting) + mn.outer(1)\n    yield_()\n"
+    merged9 = (H + "def mn_inner(xa):\n    d3.Setting = xa\n    return xa + 1\ndef mn_outer(xa):\n    ta = mn_inner(xa)\n    return mn_inner(ta) * 2\n"
+               "while True:\n    d1.Setting = mn_outer(d0.Setting) + mn_outer(1)\n    yield_()\n")
+    out.append(("md_nested_calls_in_lib", {"": main9, "mn": lib_n}, merged9))
     return out
 
 
@@ -809,7 +821,7 @@ def check_c13(tier, t0):
         alltext = "\n".join(split.values())
         for marker, stmt, what in (("d5", "d5.Setting = xa", "UNUSED_LIBRARY_FUNCTION_EMITTED"), ("d4", "d4.Setting = 99", "LIBRARY_MAIN_BLOCK_EMITTED")):
             # the marker device is written only by the uncalled library function / the library's __main__ block of this case
-            if stmt in alltext and alltext.count(marker + ".") == 1 and re.search(r"\b%s\b" % marker, cs):
+            if n.startswith("md_") and stmt in alltext and alltext.count(marker + ".") == 1 and re.search(r"\b%s\b" % marker, cs):
                 rep.violation([n, n + "@" + tag], what, {"property": "C13", "case": n, "variant": tag, "modules": split, "code": cs},
                               "case=%s variant=%s %s" % (n, tag, what))
         items.append({"name": n, "tag": tag, "case": equiv.make_case(ic10load.load(cm), ic10load.load(cs)), "src": split,
